@@ -2,6 +2,7 @@
 """mkseed.py Cxx N : create a scratch worktree and print the seeder prompt."""
 import json,sys,subprocess,os
 pid,n=sys.argv[1],sys.argv[2]
+start=int(sys.argv[3]) if len(sys.argv)>3 else 1
 p=[json.loads(l) for l in open('/verif/properties.jsonl') if json.loads(l)['id']==pid][0]
 wt="/tmp/seed/%s/repo"%pid; out="/tmp/seed/%s/out"%pid
 os.makedirs(out,exist_ok=True)
@@ -10,5 +11,12 @@ if not os.path.exists(wt):
 t=open('/verif/vlib/seeder_prompt.txt').read()
 for k,v in {"{ID}":pid,"{TITLE}":p['title'],"{STATEMENT}":p['statement'],"{QUANT}":p['quantifier']['text'],"{FILES}":", ".join(p['anchors']['files']),"{WT}":wt,"{OUT}":out,"{N}":n}.items():
     t=t.replace(k,v)
+if start>1:
+    import glob
+    prior=[]
+    for f in sorted(glob.glob('/verif/seeded/%s-*/meta.json'%pid)):
+        m=json.load(open(f)); prior.append("  - "+m.get("summary","")[:400])
+    t=t.replace("for k = 1..%s"%n,"for k = %d..%d"%(start,start+int(n)-1))
+    t+="\n\nNumber your changes %d..%d (directories %s-%d ...). Earlier rounds already produced the changes below; do NOT repeat them or close variants - pick other functions, other mechanisms and other kinds of mistakes (including ones in callers/callees of the anchored files that the property depends on):\n%s\n"%(start,start+int(n)-1,pid,start,"\n".join(prior))
 open("/tmp/seed/%s/prompt.txt"%pid,"w").write(t)
 print("/tmp/seed/%s/prompt.txt"%pid)
